@@ -26,6 +26,7 @@ import (
 	"sort"
 	"strings"
 	"sync"
+	"sync/atomic"
 	"testing"
 	"time"
 
@@ -225,31 +226,54 @@ var parkedStates = map[string]bool{
 // parked is true when at least one such goroutine exists with a frame
 // containing wantFrame and every goroutine with a pkgFrame frame is parked on a
 // synchronisation object (none is runnable, running, sleeping or in a
-// syscall): nothing in that package can make progress any more, which is the
-// logical stuck condition that turns a watchdog expiry into a verdict. Under
-// machine load a slow-but-live goroutine shows up as runnable/running/sleep and
-// the result is false (inconclusive).
-func stuckAnalysis(pkgFrame, wantFrame string) (parked bool, dump string) {
-	gs := goroutines()
-	seenWant := false
-	all := true
-	var b strings.Builder
-	for _, g := range gs {
-		if !strings.Contains(g.Text, pkgFrame) {
-			continue
+// syscall), in three dumps taken 100 ms apart between which the harness' event
+// counter (progress) did not move: nothing in that package can make progress
+// any more, which is the logical stuck condition that turns a watchdog expiry
+// into a verdict. Under machine load a slow-but-live goroutine shows up as
+// runnable/running/sleep and the result is false (inconclusive).
+func stuckAnalysis(pkgFrame, wantFrame string, progress func() int) (parked bool, dump string) {
+	p0 := progress()
+	for round := 0; round < 3; round++ {
+		if round > 0 {
+			time.Sleep(100 * time.Millisecond)
 		}
-		if strings.Contains(g.Text, wantFrame) {
-			seenWant = true
+		gs := goroutines()
+		seenWant := false
+		all := true
+		var b strings.Builder
+		for _, g := range gs {
+			if !strings.Contains(g.Text, pkgFrame) {
+				continue
+			}
+			if strings.Contains(g.Text, wantFrame) {
+				seenWant = true
+			}
+			if !parkedStates[g.State] {
+				all = false
+			}
+			if b.Len() < 12000 {
+				b.WriteString(g.Text)
+				b.WriteString("\n\n")
+			}
 		}
-		if !parkedStates[g.State] {
-			all = false
-		}
-		if b.Len() < 12000 {
-			b.WriteString(g.Text)
-			b.WriteString("\n\n")
+		dump = b.String()
+		if !(seenWant && all) || progress() != p0 {
+			return false, dump
 		}
 	}
-	return seenWant && all, b.String()
+	// A confirmed hang leaks its goroutines; later cases of this process use a
+	// short watchdog so that a tree that hangs everywhere still finishes.
+	watchdogNow.Store(int64(2 * time.Second))
+	return true, dump
+}
+
+var watchdogNow atomic.Int64
+
+func currentWatchdog() time.Duration {
+	if d := watchdogNow.Load(); d != 0 {
+		return time.Duration(d)
+	}
+	return watchdog
 }
 
 // waitDone waits for ch with the watchdog; true = closed in time.
@@ -259,7 +283,7 @@ func waitDone(ch <-chan struct{}) bool {
 		return true
 	default:
 	}
-	t := time.NewTimer(watchdog)
+	t := time.NewTimer(currentWatchdog())
 	defer t.Stop()
 	select {
 	case <-ch:
